@@ -5,6 +5,7 @@ go 1.23.0
 require (
 	github.com/hashicorp/memberlist v0.5.3
 	github.com/olric-data/olric v0.0.0
+	github.com/redis/go-redis/v9 v9.7.3
 )
 
 require (
@@ -25,7 +26,6 @@ require (
 	github.com/hashicorp/logutils v1.0.0 // indirect
 	github.com/miekg/dns v1.1.65 // indirect
 	github.com/pkg/errors v0.9.1 // indirect
-	github.com/redis/go-redis/v9 v9.7.3 // indirect
 	github.com/sean-/seed v0.0.0-20170313163322-e2103e2c3529 // indirect
 	github.com/tidwall/btree v1.7.0 // indirect
 	github.com/tidwall/match v1.1.1 // indirect
